@@ -97,6 +97,67 @@ fn main() {
                 }
             }
         }
+        "io" => {
+            use cbverif::io_engine::{self as io, Api};
+            let thorough = arg(&args, "--tier").as_deref() == Some("thorough");
+            let seed: u64 = arg(&args, "--seed").and_then(|s| s.parse().ok()).unwrap_or(20260926);
+            let threads: usize = arg(&args, "--threads").and_then(|s| s.parse().ok()).unwrap_or(16);
+            let out = arg(&args, "--out").expect("--out");
+            let apis: Vec<Api> = arg(&args, "--apis")
+                .unwrap_or_else(|| "std".into())
+                .split(',')
+                .map(|a| match a {
+                    "std" => Api::Std,
+                    "eio" => Api::Eio,
+                    "eio-async" => Api::EioAsync,
+                    o => panic!("unknown api {o}"),
+                })
+                .collect();
+            for a in &apis {
+                assert!(io::api_available(*a), "api {a:?} not compiled into this build");
+            }
+            let prop_cases: u32 = arg(&args, "--prop-cases").and_then(|s| s.parse().ok()).unwrap_or(if thorough { 400_000 } else { 40_000 });
+            let max_ops = if thorough { 300 } else { 40 };
+            let t0 = Instant::now();
+            let (es, ps, fail) = io::run_io(&apis, thorough, seed, threads, prop_cases, max_ops);
+            let sj = |st: &io::IoStats| {
+                json!({
+                    "evaluations": st.evaluations,
+                    "distinct_nontrivial": st.nontrivial.len(),
+                    "by_first_op": st.by_op,
+                    "fact_counts": {"partial_or_clamped_transfer": st.flag_counts[0], "wrap_point_involved": st.flag_counts[1], "zero_capacity": st.flag_counts[2], "write_longer_than_free_space": st.flag_counts[3], "non_empty": st.flag_counts[4]},
+                    "samples": st.samples,
+                })
+            };
+            let mut report = serde_json::Map::new();
+            report.insert("enumerative".into(), sj(&es));
+            report.insert("proptest".into(), sj(&ps));
+            if let Some((c, m, gen)) = fail {
+                let (small, smsg) = io::shrink_io(&c);
+                report.insert("failure".into(), json!({"generator": gen, "message": smsg, "original_message": m, "case": serde_json::to_value(&small).unwrap(), "rendered": small.render()}));
+            }
+            report.insert("wall_s".into(), json!(t0.elapsed().as_secs_f64()));
+            report.insert("seed".into(), json!(seed));
+            std::fs::write(&out, serde_json::to_string_pretty(&serde_json::Value::Object(report)).unwrap()).unwrap();
+        }
+        "replay-io" => {
+            let text = std::fs::read_to_string(&args[2]).expect("read replay file");
+            let v: serde_json::Value = serde_json::from_str(&text).expect("json");
+            let cv = if v.get("case").is_some() { v["case"].clone() } else { v };
+            let case: cbverif::io_engine::IoCase = serde_json::from_value(cv).expect("case");
+            println!("case: {}", case.render());
+            if !cbverif::io_engine::api_available(case.api) {
+                println!("REPLAY-SKIP api {:?} not compiled into this build", case.api);
+                std::process::exit(5);
+            }
+            match cbverif::io_engine::run_io_case(&case) {
+                Ok(_) => println!("REPLAY-OK"),
+                Err(m) => {
+                    println!("REPLAY-FAIL {m}");
+                    std::process::exit(1);
+                }
+            }
+        }
         _ => {
             eprintln!("usage: cbverif run <Cxx> --tier quick|thorough --seed N --out FILE | replay <Cxx> FILE");
             std::process::exit(64);
